@@ -526,7 +526,8 @@ impl<C: ContentAddrStore> SealedState<C> {
             .keys()
             .map(|k| self.0.stakes.votes(my_epoch, *k))
             .sum();
-        if total_votes > present_votes / 2 * 3 {
+        // more than two thirds of the voting power must have signed: 3 * present > 2 * total (the products may exceed a u128)
+        if num::BigUint::from(present_votes) * 3u32 > num::BigUint::from(total_votes) * 2u32 {
             Some(ConfirmedState {
                 state: self.clone(),
                 cproof,
